@@ -117,9 +117,18 @@ def _expected_table(inp, obs):
     pv = (np.asarray(gen.value_matrix(pos), dtype=np.float64) * 4).round().astype(int)
     sv = (np.asarray(gen.value_matrix(spec), dtype=np.float64) * 4).round().astype(int)
     rows = []
+    # the descriptors the wrapper reports (file order: they are paired with the rows / columns of the ancillary
+    # VALUE datasets); a list of the wrong length can never give the expected table
+    spec_desc = (list(obs['spec_desc']) + ['<missing descriptor>'] * Q)[:Q]
+    pos_desc = (list(obs['pos_desc']) + ['<missing descriptor>'] * P)[:P]
+    # independent of the wrapper: descriptor = "<label> (<unit>)" of the dimension stored in that row / column
+    want_spec = ['%s (%s)' % (l, u) for l, u in zip(spec['labels'], spec['units'])]
+    want_pos = ['%s (%s)' % (l, u) for l, u in zip(pos['labels'], pos['units'])]
+    if spec_desc != want_spec or pos_desc != want_pos:
+        spec_desc, pos_desc = want_spec, want_pos
     for q in range(Q):
-        rows.append([''] * (P - 1) + [obs['spec_desc'][q]] + [str(int(sv[c, q])) for c in range(m)])
-    rows.append(list(obs['pos_desc']) + ['DASH'] * m)
+        rows.append([''] * (P - 1) + [spec_desc[q]] + [str(int(sv[c, q])) for c in range(m)])
+    rows.append(list(pos_desc) + ['DASH'] * m)
     for r in range(n):
         rows.append([str(int(pv[r, p])) for p in range(P)] + [str(r * m + c) for c in range(m)])
     return rows
